@@ -138,8 +138,17 @@ class ExactGeneric(Relation):
         big = max(a, b) > self.whole[ctx.tier if ctx.tier in self.whole
                                       else 'quick']
         if not big:
+            # a returned mask is the caller's to edit (in-place thresholding,
+            # normalising): the next mask must not see the edit
+            pre = reg.to_mask('exact')
+            keep = np.array(pre.data, copy=True)
+            if pre.data.size and pre.data.flags.writeable:
+                pre.data[...] = -7.25
             mask = reg.to_mask('exact')
             d = np.asarray(mask.data)
+            ctx.check(np.array_equal(d, keep),
+                      f'{kind} | editing a returned exact mask changes the '
+                      'mask returned by the next call')
             bb = mask.bbox
             ctx.check(np.all(np.isfinite(d)), f'{kind} | non-finite exact value')
             ctx.check(d.min() >= 0 and d.max() <= 1 + 1e-12,
